@@ -5,6 +5,7 @@ CONSTANTS
   NEvents = 2
   Cap = 1
   Locked = TRUE
+  CloseOnCtxDone = TRUE
 INVARIANTS NoPanic NoStuckLoop LaterSendsRefused CompletedAtClose AllCompleted
 PROPERTIES CloseTerminates EnqueueWhileOpen DoneMeansCompleted NoRegistrationAfterDone
 CHECK_DEADLOCK FALSE
